@@ -47,24 +47,27 @@ type ditem struct {
 }
 
 type kase struct {
-	ID       int      `json:"id"`
-	Stream   string   `json:"stream"`
-	IFSSet   bool     `json:"ifs_set"`
-	IFS      []int    `json:"ifs"`
-	IFSHex   string   `json:"ifs_hex"`
-	Params   []string `json:"params_hex"`
-	Vars     []string `json:"vars_hex"`
-	Src      string   `json:"src"`      // the word as shell source
-	Script   string   `json:"script"`   // the whole case as shell source
-	Modelled bool     `json:"modelled"` // parts are inside the Coq model's fragment
-	Parts    []part   `json:"parts"`
-	Fields   any      `json:"fields"` // [][]int from expand.Fields, or "P"/"E:.."
-	FieldsS  string   `json:"fields_s"`
-	Interp   string   `json:"interp"`
-	Bash     string   `json:"bash"`
-	Fails    []string `json:"fails"`
-	Class    string   `json:"class"`
-	NoOracle string   `json:"no_oracle"` // why bash is not consulted for this case ("" = it is)
+	ID        int      `json:"id"`
+	Stream    string   `json:"stream"`
+	IFSSet    bool     `json:"ifs_set"`
+	IFS       []int    `json:"ifs"`
+	IFSHex    string   `json:"ifs_hex"`
+	Params    []string `json:"params_hex"`
+	Vars      []string `json:"vars_hex"`
+	Src       string   `json:"src"`      // the word as shell source
+	Script    string   `json:"script"`   // the whole case as shell source
+	Modelled  bool     `json:"modelled"` // parts are inside the Coq model's fragment
+	Parts     []part   `json:"parts"`
+	Fields    any      `json:"fields"` // [][]int from expand.Fields, or "P"/"E:.."
+	FieldsS   string   `json:"fields_s"`
+	Interp    string   `json:"interp"`
+	Bash      string   `json:"bash"`
+	Fails     []string `json:"fails"`
+	Class     string   `json:"class"`
+	Seq       int      `json:"seq"`        // seq stream: number of the sequence this step belongs to (else -1)
+	SeqPos    int      `json:"seq_pos"`    // its position in the sequence
+	SeqScript string   `json:"seq_script"` // the whole sequence as one script (one Runner, one expand.Config)
+	NoOracle  string   `json:"no_oracle"`  // why bash is not consulted for this case ("" = it is)
 
 	ifs    string
 	params []string
@@ -339,12 +342,41 @@ func (g *gen) word() {
 	k.Src = src.String()
 }
 
+// a sequence step: IFS changes between the steps of one shell / one expand.Config:
+// custom value, then unset / empty / another value, then anything
+func genSeqIFS(r *rand.Rand, pos int) (bool, string) {
+	switch pos {
+	case 0:
+		return true, hx.Pick(r, []string{":", ",", ": ", "x", "-", ":,", "é", "1", "/"})
+	case 1:
+		switch r.IntN(4) {
+		case 0, 1:
+			return false, " \t\n"
+		case 2:
+			return true, ""
+		default:
+			return true, hx.Pick(r, []string{",", " ", "b", ";", " \t\n"})
+		}
+	default:
+		return genIFS(r)
+	}
+}
+
 func genCase(r *rand.Rand, id int, wild bool) *kase {
-	k := &kase{ID: id, Stream: "gen", Modelled: true}
+	return genCaseIFS(r, id, wild, -1)
+}
+
+func genCaseIFS(r *rand.Rand, id int, wild bool, seqPos int) *kase {
+	k := &kase{ID: id, Stream: "gen", Modelled: true, Seq: -1}
 	if wild {
 		k.Stream = "wild"
 	}
-	k.IFSSet, k.ifs = genIFS(r)
+	if seqPos >= 0 {
+		k.Stream = "seq"
+		k.IFSSet, k.ifs = genSeqIFS(r, seqPos)
+	} else {
+		k.IFSSet, k.ifs = genIFS(r)
+	}
 	if wild && r.IntN(6) == 0 { // IFS with invalid UTF-8 or U+FFFD: outside the model
 		k.IFSSet, k.ifs = true, hx.Pick(r, []string{"\xff", ":\xc3", "�", " \xe2\x82"})
 		k.Modelled = false
@@ -422,7 +454,7 @@ func encFields(n int, fields []string) string {
 	return sb.String()
 }
 
-func (k *kase) runExpand() {
+func (k *kase) runExpand(shared *expand.Config) {
 	env := mapEnv{}
 	if k.IFSSet {
 		env["IFS"] = expand.Variable{Set: true, Kind: expand.String, Str: k.ifs}
@@ -444,7 +476,11 @@ func (k *kase) runExpand() {
 		k.Fields, k.FieldsS = "E:shape", "E:shape"
 		return
 	}
-	cfg := &expand.Config{Env: env}
+	cfg := shared // a sequence reuses one Config with a changing environment, like the interpreter does
+	if cfg == nil {
+		cfg = &expand.Config{}
+	}
+	cfg.Env = env
 	var fields []string
 	var ferr error
 	if p, msg := hx.Try(func() { fields, ferr = expand.Fields(cfg, call.Args[1]) }); p {
@@ -729,29 +765,88 @@ func main() {
 		for i := 0; i < o.N; i++ {
 			cases = append(cases, genCase(r, i, true))
 		}
+	case "seq":
+		r := hx.Rand(o.Seed, 2202)
+		for i := 0; i < o.N; i++ {
+			n := 2 + r.IntN(2)
+			for j := 0; j < n; j++ {
+				k := genCaseIFS(r, len(cases), false, j)
+				k.Seq, k.SeqPos = i, j
+				cases = append(cases, k)
+			}
+		}
 	case "pinned":
 		for i, p := range pinned {
-			k := &kase{ID: i, Stream: "pinned", IFSSet: p.ifsSet, ifs: p.ifs, params: p.params, vars: p.vars, Src: p.src}
+			k := &kase{ID: i, Stream: "pinned", Seq: -1, IFSSet: p.ifsSet, ifs: p.ifs, params: p.params, vars: p.vars, Src: p.src}
 			if !p.ifsSet {
 				k.ifs = " \t\n"
 			}
 			cases = append(cases, k)
 		}
 		for _, ps := range pinnedScripts {
-			k := &kase{ID: len(cases), Stream: "pinned", Script: ps.script, Src: "(script)", scriptOnly: true, pinClass: ps.class}
+			k := &kase{ID: len(cases), Stream: "pinned", Seq: -1, Script: ps.script, Src: "(script)", scriptOnly: true, pinClass: ps.class}
 			cases = append(cases, k)
 		}
 	default:
 		panic("unknown mode")
 	}
-	bodies := make([]string, len(cases))
-	for i, k := range cases {
+	// units: single cases, or the steps of one sequence (run by one bash, one Runner, one expand.Config)
+	var units [][]*kase
+	for _, k := range cases {
 		k.finishScript()
-		bodies[i] = k.Script
+		if k.Seq >= 0 && len(units) > 0 && units[len(units)-1][0].Seq == k.Seq {
+			units[len(units)-1] = append(units[len(units)-1], k)
+		} else {
+			units = append(units, []*kase{k})
+		}
+	}
+	bodies := make([]string, len(units))
+	for i, u := range units {
+		var parts []string
+		for _, k := range u {
+			parts = append(parts, k.Script)
+		}
+		bodies[i] = strings.Join(parts, "; printf '|'; ")
+		if len(u) > 1 {
+			for _, k := range u {
+				k.SeqScript = bodies[i]
+			}
+		}
 	}
 	bash := hxsplit.Bash(dir, prelude, bodies)
+	split := func(out string, n int) []string {
+		l := strings.Split(out, "|")
+		if len(l) != n {
+			l = make([]string, n)
+			for i := range l {
+				l[i] = "UNSPLITTABLE:" + out
+			}
+		}
+		return l
+	}
+	interpOut := map[*kase]string{}
+	sharedCfg := map[*kase]*expand.Config{}
+	bashCase := make([]string, len(cases))
+	ci := 0
+	for i, u := range units {
+		bs := split(bash[i], len(u))
+		var is []string
+		var cfg *expand.Config
+		if len(u) > 1 {
+			is = split(hxsplit.RunInterp(dir, prelude+"\n"+bodies[i], 5*time.Second), len(u))
+			cfg = &expand.Config{}
+		}
+		for j, k := range u {
+			bashCase[ci] = bs[j]
+			if is != nil {
+				interpOut[k] = is[j]
+			}
+			sharedCfg[k] = cfg
+			ci++
+		}
+	}
 	for i, k := range cases {
-		k.Bash = bash[i]
+		k.Bash = bashCase[i]
 		if k.scriptOnly {
 			k.Interp = hxsplit.RunInterp(dir, prelude+"\n"+k.Script, 5*time.Second)
 			if k.Interp != k.Bash {
@@ -761,8 +856,12 @@ func main() {
 			hx.Emit(k)
 			continue
 		}
-		k.runExpand()
-		k.Interp = hxsplit.RunInterp(dir, prelude+"\n"+k.Script, 5*time.Second)
+		k.runExpand(sharedCfg[k])
+		if out, ok := interpOut[k]; ok {
+			k.Interp = out
+		} else {
+			k.Interp = hxsplit.RunInterp(dir, prelude+"\n"+k.Script, 5*time.Second)
+		}
 		k.NoOracle = k.bashUnreliable()
 		cmdsubst := strings.Contains(k.Src, "$(") || strings.Contains(k.Src, "`")
 		if k.NoOracle == "" {
